@@ -488,9 +488,61 @@ def grad_ident_rule(ctx):
     return res
 
 
+def grad_reparam_rule(ctx):
+    """GRAD-REPARAM.  A sampler that stays inside autograd must be reparameterised: `mean + std * randn(..)`
+    carries d/dmean and d/dstd, whereas `torch.normal(mean, std)` returns a tensor that *requires grad* and
+    back-propagates zeros to its parameter arguments (discrete draws -- bernoulli, poisson -- have no
+    derivative to lose and are not judged) -- no error, no None, a wrong gradient for everything upstream (the context encoder, the
+    embedding net).  Inside `torch.no_grad()` the author has declared the draw non-differentiable and the
+    result does not require grad; that is GRAD-CUT's business when it reaches a differentiable result."""
+    import ast
+
+    from .shared_rules import _functions, _own_nodes
+
+    p = ctx.p
+    res = RuleResult("GRAD-REPARAM", "outside torch.no_grad() no continuous draw is made by the non-reparameterised torch.normal(mean, std) with tensor parameters: its output back-propagates zeros to them")
+    n_fn = n_draw = 0
+    SAMPLERS = ("normal",)
+    for mod, qual, fn, cls in _functions(p):
+        n_fn += 1
+        deco_nograd = any("no_grad" in norm_text(d) for d in fn.decorator_list)
+        for n in _own_nodes(fn):
+            if not (isinstance(n, ast.Call) and isinstance(n.func, ast.Attribute) and n.func.attr in SAMPLERS):
+                continue
+            recv = n.func.value
+            functional = isinstance(recv, ast.Name) and recv.id == "torch"
+            args = list(n.args) + [k.value for k in n.keywords if k.arg in ("mean", "std", "input", "p", "total_count", "count", "prob")]
+            if not functional:
+                # method form  p.bernoulli()  on a tensor expression
+                if n.func.attr == "normal" or isinstance(recv, ast.Name) and recv.id in ("np", "random", "numpy", "init", "nn"):
+                    continue
+                if isinstance(recv, ast.Attribute) and norm_text(recv) in ("np.random", "numpy.random", "nn.init", "torch.nn.init"):
+                    continue
+                args = [recv] + args
+            tens = [a for a in args if not isinstance(a, ast.Constant) and not (isinstance(a, ast.UnaryOp) and isinstance(a.operand, ast.Constant))]
+            if not tens:
+                continue
+            n_draw += 1
+            cur, under = n, deco_nograd
+            while getattr(cur, "_parent", None) is not None and not under:
+                cur = cur._parent
+                if isinstance(cur, ast.With) and any("no_grad" in norm_text(i.context_expr) or "set_grad_enabled(False)" in norm_text(i.context_expr) for i in cur.items):
+                    under = True
+                if cur is fn:
+                    break
+            if under:
+                res.ok("%s: `%s` is drawn under torch.no_grad()" % (qual, norm_text(n)[:50]))
+                continue
+            res.fail(Finding("GRAD-REPARAM", mod, qual, n, "`%s` draws from a sampler that is not reparameterised: the result requires grad, but its derivative with respect to %s is identically zero, so every gradient taken through the samples (and through a log-density evaluated at them) silently misses the dependence on the parameters that produced %s; write the draw as  mean + std * torch.randn(..)" % (norm_text(n)[:70], ", ".join("`%s`" % norm_text(a)[:30] for a in tens[:2]), "them" if len(tens) > 1 else "it"), construct="non-reparameterised draw in %s" % qual))
+    if n_fn < getattr(ctx, "reparam_floor", 300):
+        raise AnalysisIncomplete("GRAD-REPARAM: only %d functions examined" % n_fn)
+    res.ok("%d functions examined, %d parameterised draws by torch.normal" % (n_fn, n_draw), nontrivial=False)
+    return res
+
+
 register(
     "C16",
-    [grad_cut_rule, grad_reach_rule, _late_inplace, grad_where_rule, grad_umnn_rule, grad_ident_rule, grad_memo_rule],
+    [grad_cut_rule, grad_reach_rule, _late_inplace, grad_where_rule, grad_umnn_rule, grad_ident_rule, grad_memo_rule, grad_reparam_rule],
     "Forward may-dependence (taint) analysis over every differentiable entry point (forward/inverse of every Transform per "
     "concrete receiver class, the Linear accessors, log_prob/_log_prob/mean of every Distribution, Flow.sample_and_log_prob/"
     "_sample/transform_to_noise, forward/log_prob of the remaining nn.Modules, the eight spline functions). Gradient-severing "
